@@ -809,7 +809,7 @@ class FieldString(Unit):
         return dict(confirmed=False, call='Packet.field_string', observed='')
 
 
-def units(tier):
+def _own_units(tier):
     us = []
     for t in all_classes():
         if t[3] is PlayerListItemPacket:
@@ -828,3 +828,8 @@ def units(tier):
         u.prop, u.name = 'C05', 'C05.types.' + u.name.split('.', 1)[1]
         ts.append(u)
     return us + [GenericDefinition(), FieldString(), Ids()] + c05_lists.units(tier) + ts
+
+
+def units(tier):
+    from .deps import dependency_units
+    return _own_units(tier) + dependency_units('C05')
